@@ -81,7 +81,9 @@ struct SpyExact {
     }
 };
 
+template<class G, class WM>
 static int spanner_csd(const G &g, WM w, size_t k) {
+    typedef typename boost::graph_traits<G>::edge_descriptor E;
     typedef std::back_insert_iterator<std::list<std::list<E>>> Out;
     parmcb::detail::BaseApproxSpannerAlgorithm<G, WM, NullExact<G, WM, Out>, false> algo(g, w, boost::get(boost::vertex_index, g), k);
     const G &sp = algo.verif_spanner();
@@ -90,8 +92,8 @@ static int spanner_csd(const G &g, WM w, size_t k) {
     return (int) boost::num_edges(sp) - n + c;
 }
 
-static std::string acase(const GraphSpec &s, const char *variant, size_t k) {
-    return J().str("variant", variant).num("k", (ll) k).raw("graph", spec_json(s)).done();
+static std::string acase(const GraphSpec &s, const char *variant, size_t k, const char *wtype = "double") {
+    return J().str("variant", variant).str("weight_type", wtype).num("k", (ll) k).raw("graph", spec_json(s)).done();
 }
 
 struct CountingIt {
@@ -107,49 +109,39 @@ static bool to_units_d(const GraphSpec &s, double v, ll &u) {
     u = (ll) x; return true;
 }
 
-static void mode_c0506(const Args &a, bool c06) {
-    int max_n = (int) a.geti("max_n", 26);
-    bool deref = a.geti("deref", 0) != 0;
-    if (c06) {
-        std::string why; long q = oracle_selfcheck(a.seed + a.from, (int) a.geti("selfcheck", 40), why);
-        if (q < 0) { emit_harness_failure(why); exit(2); }
-        emit_summary(J().num("oracle_selfcheck_graphs", q).done());
-    }
-    int vlo = (int) a.geti("vlo", 0), vhi = (int) a.geti("vhi", 2);
-    for (uint64_t i = a.from; i < a.to; i++) {
-        Rng r(case_seed(a.seed, c06 ? "C06" : "C05", i));
-        size_t k; GraphSpec s;
-        if (!a.replay.empty()) { std::ifstream in(a.replay); if (!parse_spec(in, s)) { emit_harness_failure("cannot parse replay spec"); exit(2); } k = (size_t) a.geti("k", 2); }
-        else {
-            s = gen_approx_graph(r, max_n, k, false);
-            if (c06 && r.chance(0.08)) k = 0;
-        }
+template<class W> static bool to_units_w(const GraphSpec &s, W v, ll &u);
+template<> bool to_units_w<double>(const GraphSpec &s, double v, ll &u) { return to_units_d(s, v, u); }
+template<> bool to_units_w<int>(const GraphSpec &, int v, ll &u) { u = v; return true; }
+
+template<class W>
+static void case_c0506(const Args &a, bool c06, uint64_t i, const GraphSpec &s, size_t k, bool deref, int vlo, int vhi) {
         CaseOut co(i);
+        typedef typename BG<W>::Graph G; typedef typename BG<W>::Edge E; typedef typename BG<W>::WMap WM;
         int dim = cycle_space_dim(s);
-        G g; build_graph<double>(s, g); WM w = boost::get(boost::edge_weight, g);
+        G g; build_graph<W>(s, g); WM w = boost::get(boost::edge_weight, g);
         int sp_csd = k >= 1 ? spanner_csd(g, w, k) : 0;
-        co.hash = mix(canon_hash(s), k);
+        co.hash = mix(mix(canon_hash(s), k), std::is_same<W, int>::value ? 1 : 0);
         co.nontrivial = c06 ? (dim >= 2) : (sp_csd >= 1 && dim > sp_csd ? true : sp_csd >= 1);
-        co.tag("fam:" + s.family.substr(0, s.family.find('+')));
+        co.tag("fam:" + s.family.substr(0, s.family.find('+'))); co.tag(std::is_same<W, int>::value ? "wtype:int" : "wtype:double");
         co.tag("k=" + std::to_string(std::min<size_t>(k, 6)) + (k >= 6 ? "+" : ""));
         if (sp_csd >= 1) co.tag("spanner_has_cycles"); if (dim > sp_csd) co.tag("has_non_spanner_edges"); if (dim == 0) co.tag("forest_or_empty");
         if (s.tie_rich) co.tag("tie_rich");
         OracleResult orc; if (c06) { orc = horton_oracle(s); if (!orc.ok) { emit_harness_failure("oracle failed"); exit(2); } }
         for (int v = vlo; v <= vhi; v++) {
-            std::string cj = acase(s, approx_names[v], k);
+            std::string cj = acase(s, approx_names[v], k, std::is_same<W, int>::value ? "int" : "double");
             if (k == 0) {
                 long cnt = 0; bool threw = false;
-                try { run_approx_it<double>(v, g, w, k, CountingIt{&cnt}); } catch (...) { threw = true; }
+                try { run_approx_it<W>(v, g, w, k, CountingIt{&cnt}); } catch (...) { threw = true; }
                 if (!threw) co.viol(std::string(approx_names[v]) + ":k0_not_rejected", "k = 0 was accepted (no exception)", cj, spec_text(s));
                 if (cnt != 0) co.viol(std::string(approx_names[v]) + ":k0_emitted", "k = 0 emitted " + std::to_string(cnt) + " cycles before/without rejecting", cj, spec_text(s));
                 co.tag("k0_call");
                 continue;
             }
-            std::list<std::list<E>> cycles; double ret = 0; std::string exc, sink_err;
+            std::list<std::list<E>> cycles; W ret = 0; std::string exc, sink_err;
             bool positional = (mix(canon_hash(s), v * 31 + k) % 10) < 4;   // the output iterator is a template parameter: also a positional one
             try {
-                if (positional) { SlotSink<std::list<E>> sink((size_t) dim + 4); ret = run_approx_it<double>(v, g, w, k, sink.begin()); sink_err = sink.collect((size_t) dim, cycles); }
-                else ret = run_approx<double>(v, g, w, k, cycles);
+                if (positional) { SlotSink<std::list<E>> sink((size_t) dim + 4); ret = run_approx_it<W>(v, g, w, k, sink.begin()); sink_err = sink.collect((size_t) dim, cycles); }
+                else ret = run_approx<W>(v, g, w, k, cycles);
             } catch (std::exception &e) { exc = e.what(); } catch (std::runtime_error *e) { exc = e->what(); delete e; } catch (...) { exc = "unknown"; }
             if (!exc.empty()) { co.viol(std::string(approx_names[v]) + ":exception", exc, cj, spec_text(s)); continue; }
             if (positional) co.tag("sink:positional");
@@ -157,11 +149,11 @@ static void mode_c0506(const Args &a, bool c06) {
             if (deref) { // C07 probe: use every returned descriptor with the caller's map after the call returned
                 volatile double sink = 0; for (auto &c : cycles) for (auto &e : c) sink = sink + w[e]; (void) sink;
             }
-            BasisReport br = check_basis<double>(s, g, cycles);
-            std::string obs = J().num("emitted_cycles", (ll) br.count).raw("cycle_weights_units", jnums(br.weights)).dbl("returned", ret).num("spanner_cycle_space_dim", sp_csd).done();
+            BasisReport br = check_basis<W>(s, g, cycles);
+            std::string obs = J().num("emitted_cycles", (ll) br.count).raw("cycle_weights_units", jnums(br.weights)).dbl("returned", (double) ret).num("spanner_cycle_space_dim", sp_csd).done();
             if (!c06) {
                 if (!br.error.empty()) { co.viol(std::string(approx_names[v]) + ":" + br.kind, br.error, cj, spec_text(s), obs); continue; }
-                ll ru; if (!to_units_d(s, ret, ru) || ru != br.total)
+                ll ru; if (!to_units_w<W>(s, ret, ru) || ru != br.total)
                     co.viol(std::string(approx_names[v]) + ":returned_ne_emitted", "returned " + std::to_string(ret) + " but the emitted cycles weigh " + std::to_string(br.total) + " units under the caller's map", cj, spec_text(s), obs);
             } else {
                 if (!br.error.empty()) { co.tag("invalid_basis_skipped(C05)"); continue; }
@@ -173,8 +165,29 @@ static void mode_c0506(const Args &a, bool c06) {
                 if (br.total == orc.opt) co.tag("hit_optimum"); else co.tag("above_optimum");
             }
         }
-        if ((int) (i - a.from) < a.samples) co.sample = J().raw("graph", spec_json(s, 40)).num("k", (ll) k).num("cycle_space_dim", dim).num("spanner_cycle_space_dim", sp_csd).done();
+        if ((int) (i - a.from) < a.samples) co.sample = J().raw("graph", spec_json(s, 40)).num("k", (ll) k).num("cycle_space_dim", dim).num("spanner_cycle_space_dim", sp_csd).str("weight_type", std::is_same<W, int>::value ? "int" : "double").done();
         co.end();
+}
+
+static void mode_c0506(const Args &a, bool c06) {
+    int max_n = (int) a.geti("max_n", 26);
+    bool deref = a.geti("deref", 0) != 0;
+    if (c06) {
+        std::string why; long q = oracle_selfcheck(a.seed + a.from, (int) a.geti("selfcheck", 40), why);
+        if (q < 0) { emit_harness_failure(why); exit(2); }
+        emit_summary(J().num("oracle_selfcheck_graphs", q).done());
+    }
+    int vlo = (int) a.geti("vlo", 0), vhi = (int) a.geti("vhi", 2);
+    for (uint64_t i = a.from; i < a.to; i++) {
+        Rng r(case_seed(a.seed, c06 ? "C06" : "C05", i));
+        size_t k; GraphSpec s; bool use_int = r.chance(0.25);   // the weight value type is a template parameter: int as well as double
+        if (!a.replay.empty()) { std::ifstream in(a.replay); if (!parse_spec(in, s)) { emit_harness_failure("cannot parse replay spec"); exit(2); } k = (size_t) a.geti("k", 2); use_int = a.gets("wtype", "double") == "int"; }
+        else {
+            s = gen_approx_graph(r, max_n, k, use_int);
+            if (c06 && r.chance(0.08)) k = 0;
+            if (use_int) { ll tot = 0; for (auto &e : s.edges) tot += e.w; if (s.wshift != 0 || s.wmode != 0 || tot * 12 > 2000000000LL) use_int = false; }
+        }
+        if (use_int) case_c0506<int>(a, c06, i, s, k, deref, vlo, vhi); else case_c0506<double>(a, c06, i, s, k, deref, vlo, vhi);
         if (!a.replay.empty()) break;
     }
 }
